@@ -231,7 +231,13 @@ def check_static(case, prebuilt=None):
       fn = lambda: gin.parse_config(pre + f'{key}.{param} = {value!r}\n' + post)
     elif api in ('hook_str', 'hook_tuple'):
       hk = f'{key}.{param}' if api == 'hook_str' else (scope, sp, param)
-      gin.config.register_finalize_hook(lambda config, hk=hk: {hk: value})
+      proposals = {hk: value}
+      ok_first = next((p for p in named if accept(p, 'full') and p != param), None)
+      if not accepted and ok_first is not None:
+        # an acceptable proposal precedes the one that must be rejected: nothing may be applied
+        proposals = {('zhook', full, ok_first): 'HOOK-OK', hk: value}
+        labels.add('hook-with-valid-and-invalid-proposal')
+      gin.config.register_finalize_hook(lambda config, proposals=proposals: dict(proposals))
       fn = gin.finalize
     else:
       raise OutOfDomain(api)
@@ -287,7 +293,9 @@ SCOPES = ['', '', 's', 's/t', 'other']
 
 def _param_classes(shape):
   named = G.named_params(shape)
-  return named + ['zz_unknown'] + G.EXTRA[:1]
+  # 'args' / 'kw' are the names of the variadic parameters in the generated signatures: they are
+  # not parameters a binding can name (unless **kw accepts any name)
+  return named + ['zz_unknown'] + G.EXTRA[:1] + ['args', 'kw']
 
 
 @st.composite
@@ -357,7 +365,7 @@ def _static_case(draw):
 
 def sweep(tier):
   cases = []
-  base = {'pos': ['w'], 'dflt': ['v', 'e'], 'varargs': False, 'kwonly': [], 'kwdflt': ['t'],
+  base = {'pos': ['w'], 'dflt': ['v', 'e'], 'varargs': True, 'kwonly': [], 'kwdflt': ['t'],
           'method_api': 'register'}
   for kind in ('function', 'class_init', 'method'):
     for api_reg in ('configurable', 'register', 'external'):
@@ -375,7 +383,7 @@ def sweep(tier):
             shape[lists[0]] = lists[1]
           for api in APIS:
             for sp in ('full', 'bare', 'unknown'):
-              for param in ('v', 'e', 'w', 'zz_unknown', 'x'):
+              for param in ('v', 'e', 'w', 'zz_unknown', 'x', 'args'):
                 cases.append({'shape': shape, 'prior': [['', 't', 'P0'], ['s', 'e', 'P1']],
                               'attempts': [[api, sp, 's', param, 'A0']]})
   seen, out = set(), []
